@@ -67,6 +67,11 @@ func c03Names() []c03Named[string] {
 	return []c03Named[string]{
 		{"a", "a"}, {"empty", ""}, {"253xa", strings.Repeat("a", 253)}, {"254xa", strings.Repeat("a", 254)},
 		{"300xa", strings.Repeat("a", 300)}, {"non-utf8", "\xff\xfe\x80"}, {"with-NUL", "a\x00b"},
+		// multi-byte names around the limit: byte length and rune count differ (a limit counted in the wrong unit on one
+		// side of the sign/decode pair shows up here)
+		{"126x2byte+a=253B", strings.Repeat("\u00e9", 126) + "a"}, {"127x2byte=254B/127runes", strings.Repeat("\u00e9", 127)},
+		{"84x3byte+a=253B", strings.Repeat("\u65e5", 84) + "a"}, {"85x3byte=255B/85runes", strings.Repeat("\u65e5", 85)},
+		{"253x2byte=506B/253runes", strings.Repeat("\u00e9", 253)},
 	}
 }
 
